@@ -278,7 +278,13 @@ func verifH_C05_path3() { verifC05Path(3, 3) }
 
 func verifC05Query(maxItems, leafMax int) {
 	style := []string{"form", "spaceDelimited", "pipeDelimited", "deepObject"}[verifChoose("style", 4)]
-	explode := verifChoose("explode", 2) == 1
+	// explode false / true / unset: unset means true for form (and for deepObject, which is only defined
+	// exploded) and false for the delimited styles (OAS 3.0.3: "when style is form the default is true, for all other styles false")
+	explodeSel := verifChoose("explode", 3)
+	explode := explodeSel == 1
+	if explodeSel == 2 {
+		explode = style == "form" || style == "deepObject"
+	}
 	shape, texts, keys, types := verifShape(maxItems, leafMax, verifDelims(style)+"&")
 	// legal cells only (OAS 3.0.3): space/pipe-delimited are for arrays, deepObject for exploded objects
 	verifAssume(!(style == "spaceDelimited" || style == "pipeDelimited") || shape == 1)
@@ -309,13 +315,16 @@ func verifC05Query(maxItems, leafMax int) {
 		q[name] = []string{verifJoin(kv, ",")}
 	}
 	param := &openapi3.Parameter{Name: name, In: "query", Style: style, Explode: &explode, Schema: verifParamSchema(shape, keys, types)}
+	if explodeSel == 2 {
+		param.Explode = nil
+	}
 	input := &RequestValidationInput{QueryParams: q, Request: &http.Request{Header: http.Header{}, URL: &url.URL{}}}
 	got, found, err := decodeStyledParameter(param, input)
 	verifCheckDecoded("query/"+style, got, found, err, shape, texts, keys, types)
 	verifReach("end")
 }
 
-//verif:harness id=C05 tier=quick witness=end bounds="query parameters: the legal cells of style in {form,spaceDelimited,pipeDelimited,deepObject} x explode x shape (primitive, array of 1-2, object of 1-2 properties) x leaf type x every printable-ASCII leaf text of 1-2 bytes without the style's delimiters; query given as url.Values (no URL parsing)"
+//verif:harness id=C05 tier=quick witness=end bounds="query parameters: the legal cells of style in {form,spaceDelimited,pipeDelimited,deepObject} x explode false / true / unset (the specification's default per style) x shape (primitive, array of 1-2, object of 1-2 properties) x leaf type x every printable-ASCII leaf text of 1-2 bytes without the style's delimiters; query given as url.Values (no URL parsing)"
 func verifH_C05_query() { verifC05Query(2, 2) }
 
 //verif:harness id=C05 tier=thorough witness=end bounds="query parameters as quick with arrays of 1-3 items and leaf texts of 1-3 bytes"
